@@ -1262,6 +1262,19 @@ def enc6(cfg, classes=None):
         res.ob(ok, {'rule': 'ENC-6', 'function': sh(f.sig)[:90], 'site': fileline(f.loc), 'verdict': 'discharged' if ok else 'VIOLATION'})
         if not ok:
             res.find(f, f.loc, '%s: %s - a later write of the requested bytes (or the copy of the bytes encoded so far) runs past the end of the allocation' % (sh(f.name)[:60], '; '.join(problems)), key='ENC-6:%s:%s' % (f.cls.split('::')[-1] if f.cls else 'detail', f.short), config=cfg.name)
+    # the cursor and the capacity are full-width: a byte offset kept in a narrower field wraps on a long key
+    for cn in (classes or (ENCODER, DECODER, 'unodb::detail::key_buffer')):
+        r_ = cfg.records.get(cn)
+        if r_ is None:
+            continue
+        for fl in r_.get('fields', []):
+            if fl.get('name') in ('off', 'cap') and fl.get('w'):
+                res.count('cursor / capacity fields')
+                okw = fl['w'] >= 64
+                res.ob(okw, {'rule': 'ENC-6', 'field': '%s::%s' % (cn.split('::')[-1], fl['name']), 'width': fl['w'], 'verdict': 'discharged' if okw else 'VIOLATION'})
+                if not okw:
+                    res.find(cn, r_.get('loc'), '%s::%s is %d bits wide: the reservations are computed in size_t, but the stored %s wraps modulo 2^%d - a key longer than that overwrites its own beginning and reports a truncated size (decoding no longer returns the encoded components)' % (cn.split('::')[-1], fl['name'], fl['w'], 'cursor' if fl['name'] == 'off' else 'capacity', fl['w']), key='ENC-6:width:%s:%s' % (cn.split('::')[-1], fl['name']), config=cfg.name)
+    res.floor('cursor / capacity fields', 2)
     res.floor('capacity functions', 5 if classes is None else 3)
     return res
 
